@@ -159,6 +159,9 @@ def run(ctx):
     # are a coupled pair only just (labels are fixed-width: 'ASP1025 A', 'ASP-375 A')
     full.append(("1HPX-shift-four-columns", C.body(C.test_pdb_text("1HPX")),
                  {"mode": "none", "sa": (1000, -400)[ctx.seed % 2], "sb": (1000, -400)[ctx.seed % 2], "cm": {"A": "A", "B": "B"}}))
+    # the two methotrexate molecules of 4DFR swap chain identifiers: what was said about 'MTX  N8 B' in the first run (there
+    # it is the discarded member of its covalently coupled system) must not stick to the group that carries this label now
+    full.append(("4DFR-swap-chains", C.body(C.test_pdb_text("4DFR")), {"mode": "none", "sa": 0, "sb": 0, "cm": {"A": "B", "B": "A"}}))
     if ctx.thorough():
         full.append(("4DFR-shift-B", C.body(C.test_pdb_text("4DFR")), {"mode": "none", "sa": 0, "sb": 3, "cm": {"A": "A", "B": "B"}}))
         full.append(("1HPX-shift-four-columns", C.body(C.test_pdb_text("1HPX")),
@@ -167,7 +170,10 @@ def run(ctx):
         work = [(n, ls, d) for n, ls in structures(ctx) for d in descs] + full
     else:
         # the first structure sees the whole selection (every pair of shifts), the others the covering part
-        work = [(n, ls, d) for si, (n, ls) in enumerate(structures(ctx)) for d in (descs if si == 0 else cover[(si + ctx.seed) % 3::3])] + full
+        # ... and the alt-loc dimer also every plain pair of the shifts that make numbers of the two chains meet
+        meet = [d for d in descs if d["mode"] == "none" and d["cm"] == {"A": "A", "B": "B"} and d["sa"] in (-11, 0, 3) and d["sb"] in (-11, 0, 3)]
+        work = [(n, ls, d) for si, (n, ls) in enumerate(structures(ctx))
+                for d in (descs if si == 0 else cover[(si + ctx.seed) % 3::3] + (meet if si == 1 else []))] + full
     base_cache = {}
     for name, lines, d in work:
         new = apply_descriptor(lines, d)
